@@ -805,6 +805,9 @@ func (x *Exec) havocLoopHeap(fr *Frame, st *State, li *loopInfo) {
 				if n == pfx || strings.HasPrefix(n, pfx+".") {
 					old := st.heap[n]
 					x.heapHavoc(st, n)
+					// the loop itself writes this array: what was cached about locals and private
+					// objects (kept across a callee's havoc) is not valid at an arbitrary iteration
+					delete(st.fwd, n)
 					if !lt.untargeted[pfx] && len(lt.idx[pfx]) > 0 {
 						x.assumeLoopFrame(st, old, st.heap[n], lt.idx[pfx])
 					}
@@ -920,7 +923,7 @@ func (x *Exec) callMayWriteHeap(c *ssa.CallCommon) bool {
 	}
 	if fn := c.StaticCallee(); fn != nil {
 		k := funcKey(fn)
-		if pureIntrinsics[k] || isLoggingKey(k) {
+		if pureIntrinsics[k] || isLoggingKey(k) || x.isPureCall(k) {
 			return false
 		}
 		if con := x.CS.Funcs[k]; con != nil && con.Pure {
@@ -997,7 +1000,7 @@ func (x *Exec) callMayWriteHeapDepth(c *ssa.CallCommon, depth int) bool {
 	}
 	if fn := c.StaticCallee(); fn != nil {
 		k := funcKey(fn)
-		if pureIntrinsics[k] || isLoggingKey(k) {
+		if pureIntrinsics[k] || isLoggingKey(k) || x.isPureCall(k) {
 			return false
 		}
 		if con := x.CS.Funcs[k]; con != nil && con.Pure {
@@ -1091,6 +1094,9 @@ func (x *Exec) runFrom(fr *Frame, st *State, b *ssa.BasicBlock, start int, k fun
 			for _, r := range in.Results {
 				rs = append(rs, x.operand(fr, st, r))
 			}
+			if fr.isRoot {
+				x.escapeArgs(st, rs)
+			}
 			k(&pathEnd{st: st, results: rs, fr: fr})
 			return
 		case *ssa.Panic:
@@ -1122,11 +1128,19 @@ func (x *Exec) runFrom(fr *Frame, st *State, b *ssa.BasicBlock, start int, k fun
 			for _, a := range in.Common().Args {
 				d.args = append(d.args, x.operand(fr, st, a))
 			}
+			x.escapeArgs(st, d.args)
+			x.escapeValue(st, d.fn)
 			fr.defers = append(fr.defers, d)
 			continue
 		case *ssa.Go:
 			// spawned goroutine: havoc everything reachable -> whole heap
 			x.note("go statement in " + funcKey(fr.fn) + ": heap havocked")
+			for _, a := range in.Common().Args {
+				x.escapeValue(st, x.operand(fr, st, a))
+			}
+			if _, isB := in.Common().Value.(*ssa.Builtin); !isB {
+				x.escapeValue(st, x.operand(fr, st, in.Common().Value))
+			}
 			x.heapHavocAll(st)
 			continue
 		case *ssa.TypeAssert:
